@@ -614,7 +614,22 @@ fn apply_byte_fault(rng: &mut Rng, kind: &str, files: &mut [(String, Vec<u8>)]) 
         "nesting_bomb" => {
             // Up to a few kilobytes of nesting.
             let depth = *rng.pick(&[8usize, 64, 200, 400, 800]);
-            let bomb = match rng.below(12) {
+            let bomb = match rng.below(15) {
+                // Just inside every single limit, all at once: pointers around a generic-looking
+                // name, arrays around pointers.
+                12 => {
+                    let k = *rng.pick(&[8usize, 16, 24, 31, 32, 33]);
+                    let name = format!("{}A{}", "A<".repeat(k), ">".repeat(k));
+                    format!(
+                        "#[size(4), align(4)]\nextern type {name};\ntype Bomb {{ a: {}{name}, b: {}{name}{} }}\n",
+                        "*mut ".repeat(k),
+                        "[".repeat(k / 2),
+                        "; 1]".repeat(k / 2)
+                    )
+                }
+                // Six kilobytes of brackets.
+                13 => format!("{}{}\n", "(".repeat(3000), ")".repeat(3000)),
+                14 => format!("type Bomb {{ a: {}u8{} }}\n", "[".repeat(1500), "; 1]".repeat(1500)),
                 // A generic-looking name nested in itself, declared and used.
                 8 => {
                     let name = format!("{}A{}", "A<".repeat(depth), ">".repeat(depth));
@@ -1387,7 +1402,8 @@ pub fn generate(seed: u64, tier: Tier) -> Case {
                     false
                 } else {
                     let i = rng.below(files.len());
-                    let seg = *rng.pick(&HOSTILE_SEGMENTS);
+                    let deep = format!("{}a", "a<".repeat(*rng.pick(&[20usize, 60, 100])));
+                    let seg = if rng.chance(1, 8) { deep.as_str() } else { *rng.pick(&HOSTILE_SEGMENTS) };
                     let old = files[i].0.trim_end_matches(".pyxis").to_string();
                     let mut segs: Vec<String> = old.split('/').map(|s| s.to_string()).collect();
                     let dir_ok = !seg.chars().all(|c| c == '.');
@@ -1750,7 +1766,9 @@ pub fn evaluate(case: &Case, results: &[Vec<RunResult>], report: &mut CaseReport
                         }
                         // A text that does not even tokenise fails where the tokeniser says
                         // (asked directly, not through pyxis).
-                        if let Some((ll, lc)) = lex_error_position(&text) {
+                        if let Some((ll, lc)) = lex_error_position(&text)
+                            .filter(|_| e.contains("cannot parse string into token stream"))
+                        {
                             if e.contains(&format!("{file_name}:{ll}:{lc}")) {
                                 positioned = true;
                             } else if let Some((l, c)) = reported_position(e, &file_name) {
